@@ -356,7 +356,10 @@ func (r *Realm) parseLines(name string, lines []string) (err error) {
 		}
 		if strings.Contains(line, "{") {
 			c++
-			if ignore {
+			// The relations inside a nested block (auth_to_local_names, v4_... or an unknown one)
+			// are not relations of the realm: skip every nested block, not only the v4 ones.
+			ignore = true
+			if !strings.Contains(line, "}") {
 				continue
 			}
 		}
@@ -372,6 +375,10 @@ func (r *Realm) parseLines(name string, lines []string) (err error) {
 				}
 				continue
 			}
+		}
+		if ignore && c > 0 {
+			// still inside a nested block (the line was only looked at because of a bracket in its comment)
+			continue
 		}
 
 		p := strings.Split(line, "=")
